@@ -84,6 +84,16 @@ def accepted_set(F):
     else:
         # form 2: iter_all().filter(in parity part).try_fold(0, |count, (j, k)| expected.then_some(count + 1)).is_some_and(|c| c == 2n-1)
         ra = single_atom(ret) if isinstance(ret, Poly) else None
+        fin_direct = None
+        if ra and atom_fn(ra) == "and":
+            # normal form of o.is_some_and(f): matches(o, Some) && f(payload0 o)
+            m_, f_ = atom_args(ra)
+            ma_ = single_atom(m_) if isinstance(m_, Poly) else None
+            if ma_ is not None and atom_fn(ma_) == "matches" and atom_args(ma_)[1] == repr(("Some", "_")) and isinstance(atom_args(ma_)[0], Poly) and isinstance(f_, Poly):
+                from .symx import replace_atom
+                o_ = atom_args(ma_)[0]
+                fin_direct = replace_atom(f_, single_atom(app("payload0", o_)), var("count#g"))
+                ra = ("f", "std::option::Option::<T>::is_some_and", ("P", o_), None)
         if not (ra and atom_fn(ra) == "std::option::Option::<T>::is_some_and"):
             raise AnalysisError("is_staircase: neither a rejecting loop nor a try_fold over the entries")
         tf = single_atom(atom_args(ra)[0]) if isinstance(atom_args(ra)[0], Poly) else None
@@ -99,7 +109,7 @@ def accepted_set(F):
         try:
             fval = tr.apply(as_closure(F, tr, filt), [("tuple", [J, K])]) if filt is not None else ("bool", True)
             step = tr.apply(as_closure(F, tr, tf[4]), [var("count#g"), ("tuple", [J, K])])
-            fin = tr.apply(as_closure(F, tr, atom_args(ra)[1]), [var("count#g")])
+            fin = fin_direct if fin_direct is not None else tr.apply(as_closure(F, tr, atom_args(ra)[1]), [var("count#g")])
         except Unsupported as e:
             raise AnalysisError("is_staircase: closure unreadable: %s" % e)
         if not (isinstance(step, tuple) and len(step) == 3 and step[0] == "opt" and step[2] == var("count#g") + num(1)):
